@@ -272,6 +272,9 @@ func (r *concpRunner) Exec(line string) string {
 	switch t[0] {
 	case "seq":
 		return r.do(parseCop(t[1]))
+	case "wseq":
+		r.do(parseCop(t[1]))
+		return "-"
 	case "prog":
 		ti, _ := strconv.Atoi(t[1])
 		var ops []cop
@@ -457,7 +460,18 @@ func (r *concpRunner) execWindow(hookID string, parkedOp cop, probes []string) {
 		r.add("C11", "deadlock", fmt.Sprintf("window %s: %d of %d operations never returned", hookID, len(probes)+1-n, len(probes)+1))
 		return
 	}
+	r.finalReads(h)
 	r.checkLin(h, pre, "window "+hookID)
+}
+
+// after quiescence read every key once more: the final state belongs to the history
+func (r *concpRunner) finalReads(h *histRec) {
+	for _, k := range r.keys {
+		c := cop{kind: "get", k: k}
+		call := int64(time.Since(h.t0))
+		out := r.do(c)
+		h.record(98, c, call, int64(time.Since(h.t0)), out)
+	}
 }
 
 func (r *concpRunner) execStress(seed int64, nt, nops int) {
@@ -499,6 +513,7 @@ func (r *concpRunner) execStress(seed int64, nt, nops int) {
 	}
 	atomic.StoreInt32(&r.jitter, 0)
 	r.tag("stress")
+	r.finalReads(h)
 	r.checkLin(h, pre, fmt.Sprintf("stress seed=%d threads=%d", seed, nt))
 	_ = bytes.Equal
 }
@@ -574,7 +589,7 @@ func (concpComp) Gen(rng *rand.Rand, tier string) [][]string {
 				probes = append(probes, randOp())
 			}
 			for s := 0; s < rng.Intn(3); s++ {
-				h = append(h, "seq "+randOp())
+				h = append(h, "wseq "+randOp())
 			}
 			h = append(h, fmt.Sprintf("window %s %s %s", hk, parked, strings.Join(probes, " ")))
 		}
